@@ -1561,6 +1561,12 @@ namespace bloch::compiler {
                                  "'" + fn->name + "' is already declared in this scope");
             }
             declareFunction(fn->name);
+            // Record the signature up front as well: a call that appears before the callee's
+            // declaration must be checked against the real parameter list, not an empty one.
+            FunctionInfo info;
+            info.returnType = typeFromAst(fn->returnType.get());
+            for (auto& p : fn->params) info.paramTypes.push_back(typeFromAst(p->type.get()));
+            m_functionInfo[fn->name] = info;
         }
         for (auto& cls : program.classes)
             if (cls)
